@@ -31,6 +31,7 @@ from . import tlc
 from .report import Report
 
 CHUNK = 4096          # input valuations per simulation task
+PROCS = int(os.environ.get("VERIF_PROCS", "16"))   # simulation processes / parallel TLC runs are bounded by this
 PRINT_BAD = 5         # mismatching rows printed per table
 
 
@@ -86,7 +87,16 @@ def simulate(dut: Dut, inputs: list) -> list:
 
 def rows_of(fam: Family, cfg: dict, inputs: list) -> list:
     if fam.direct is not None:
-        return [[list(i), fam.direct(cfg, i)] for i in inputs]
+        rows = []
+        for i in inputs:
+            try:
+                out = fam.direct(cfg, i)
+            except Exception:
+                if fam.on_raise is None:
+                    raise
+                out = copy.deepcopy(fam.on_raise)
+            rows.append([list(i), out])
+        return rows
     try:
         with warnings.catch_warnings():
             warnings.simplefilter("ignore")
@@ -106,7 +116,7 @@ def _task(args):
     return rows_of(fam, cfg, inputs)
 
 
-def tabulate(module: str, families: dict, tier: str, procs: int = 16, attr: str = "FAMILIES", only=None):
+def tabulate(module: str, families: dict, tier: str, procs: int = PROCS, attr: str = "FAMILIES", only=None):
     """-> list of tables.  Deterministic: order of families, cfgs and domains is fixed."""
     tables, tasks, owner = [], [], []
     for fn, fam in families.items():
@@ -244,8 +254,12 @@ def _nonzero(out):
 def _flip(out):
     """Corrupt the fully specified part of an output (element 0 of a list, first key of a record)."""
     if isinstance(out, list):
-        return [_flip(out[0])] + out[1:] if out else [0]
+        if not out:
+            raise ValueError("nothing to flip")      # e.g. the marker of a raised exception
+        return [_flip(out[0])] + out[1:]
     if isinstance(out, dict):
+        if not out:
+            raise ValueError("nothing to flip")
         k = sorted(out)[0]
         return {**out, k: _flip(out[k])}
     if isinstance(out, str):
@@ -258,12 +272,17 @@ def make_corrupted(tables: list, rng: random.Random, n=12, window=40):
     -> list of (source table index, table, 1-based corrupted row, rows of the uncorrupted window)."""
     cands = [i for i, t in enumerate(tables) if t["rows"]]
     picked = []
-    for g in rng.sample(cands, min(n, len(cands))):
+    for g in rng.sample(cands, min(3 * n, len(cands))):
+        if len(picked) >= n:
+            break
         rows = tables[g]["rows"]
         r = rng.randrange(len(rows))
         lo = max(0, r - window // 2)
         win = copy.deepcopy(rows[lo:lo + window])
-        win[r - lo][1] = _flip(win[r - lo][1])
+        try:
+            win[r - lo][1] = _flip(win[r - lo][1])
+        except ValueError:
+            continue
         picked.append((g, {"fn": tables[g]["fn"], "cfg": tables[g]["cfg"], "rows": win}, r - lo + 1, lo))
     return picked
 
@@ -323,18 +342,19 @@ def report(rep: Report, tables: list, verdicts: list):
 
 
 def standard_check(rep: Report, module: str, families: dict, rows_module: str, laws_module: str,
-                   law_invariants: list, law_constants: dict, procs=16, jobs=None):
+                   law_invariants: list, law_constants: dict, procs=PROCS, jobs=None):
     t0 = time.time()
     # the law run (TLC only) proceeds in the background while the implementation is tabulated
     bg = ThreadPoolExecutor(1)
-    laws = bg.submit(lambda: (run_laws(laws_module, law_invariants, law_constants, rep, workers=4), time.time())[1])
+    laws = bg.submit(lambda: (run_laws(laws_module, law_invariants, law_constants, rep, workers=min(4, procs)),
+                              time.time())[1])
     t1 = time.time()
     tables = tabulate(module, families, rep.tier, procs=procs)
     t2 = time.time()
     picked = make_corrupted(tables, random.Random(rep.seed))
     nrows = sum(len(t["rows"]) for t in tables)
     if jobs is None:
-        jobs = max(1, min(8, nrows // 12000))
+        jobs = max(1, min(8, procs, nrows // 12000))
     allv, _ = validate(rows_module, tables + [p[1] for p in picked], jobs=jobs)
     verdicts, cor = allv[:len(tables)], allv[len(tables):]
     t3 = time.time()
